@@ -15,6 +15,21 @@ import Galaxy.Lemmas.PluginMain
 namespace Galaxy.Plugin
 open Galaxy
 
+/-- The start order of the galaxy-ipam daemon (regenerated from pkg/ipam/server/server.go) - hypotheses of the model's
+    faithfulness that no move covers:
+    * `plugin.Init` - the first `ConfigurePool`, the allocation cache rebuilt from the store - runs first thing in
+      `Server.Run`, and `Run` is reached only without an election or from `OnStartedLeading`; nothing rebuilds the cache
+      earlier.  This is what makes the model's `init` / `restart` / `crashAt` faithful: a process that takes over serves
+      with memory rebuilt from the store AT TAKE-OVER TIME, never with a cache built while it was a standby;
+    * `NewFloatingIPPlugin` (hence `NewCrdIPAM`'s `AddEventHandler` on the FloatingIP informer) precedes
+      `StartInformers`: the informer exists when the factories start, so the administrator's reservation events reach
+      memory - the model's `adminReserve` / `adminUnreserve` moves deliver them;
+    * the API's release function is the plugin's `Release`, the pool API's lock function the plugin's `LockDpPool` (the
+      moves `apiRelease` and the pool operations are the plugin's own, under its locks). -/
+theorem fact_server_start_order :
+    Generated.Plugin.initRunsAfterLeadershipAcquired = true ∧ Generated.Plugin.informersStartAfterPluginConstructed = true ∧
+      Generated.Plugin.releaseFuncIsPluginRelease = true ∧ Generated.Plugin.lockPoolFuncIsPluginLockDpPool = true := by decide
+
 theorem inv_withCrash (s : State) (k j : Nat) (h : Inv s) : Inv (withCrash s k j) :=
   h.of_fields rfl rfl rfl rfl rfl rfl rfl rfl
 
